@@ -45,7 +45,12 @@ extensions:
 
 
 def materialise(p, fmt, pid):
-    files = [{"rel": "graphql.config.yaml", "text": CONFIG}]
+    cfg = CONFIG
+    if "resolvers" in p.get("gen", []):
+        cfg += "      resolversOutput: ./gen/resolvers.d.ts\n"
+    if "server" in p.get("gen", []):
+        cfg += "      serverGraphqlOutput: ./gen/server.ts\n"
+    files = [{"rel": "graphql.config.yaml", "text": cfg}]
     meta = []
     for i, f in enumerate(p["schema"]):
         t = schema_text(i, f)
@@ -124,6 +129,8 @@ def file_id_out(path, proj):
         return ["schemaTypes"]
     if path == "gen/schema.d.ts.map":
         return ["schemaTypesMap"]
+    if path in ("gen/resolvers.d.ts", "gen/resolvers.d.ts.map", "gen/server.ts"):
+        return [{"gen/resolvers.d.ts": "resolvers", "gen/resolvers.d.ts.map": "resolversMap", "gen/server.ts": "server"}[path]]
     m = re.match(r"ops/o(\d+)\.d\.graphql\.ts(\.map)?$", path)
     if m:
         return ["opTypesMap" if m.group(2) else "opTypes", int(m.group(1)) + 1]
